@@ -166,7 +166,12 @@ class TranscriptAnnotationModel():
             else:
                 end = self.get_transcript_index(self.three_utr[-1].location.end - 1)
             return end - (end - start) % 3
-        return len(seq) - (len(seq) - start) % 3
+        # no 3'UTR record: the ORF ends with the annotated CDS (not with the transcript)
+        if self.transcript.strand == 1:
+            end = self.get_transcript_index(self.cds[-1].location.end - 1) + 1
+        else:
+            end = self.get_transcript_index(self.cds[0].location.start) + 1
+        return end - (end - start) % 3
 
     def get_transcript_sequence(self, chrom:dna.DNASeqRecord,
             cache:bool=False) -> dna.DNASeqRecordWithCoordinates:
